@@ -57,6 +57,34 @@ type probeEmb struct {
 	Extra string
 }
 
+// the raw paragraph one embedding level down (a user type that embeds a library type which in
+// turn embeds control.Paragraph: struct{ control.DSC; Extra string })
+type ProbeHeader struct {
+	control.Paragraph
+	Source string
+}
+
+type probeNested struct {
+	ProbeHeader
+	Extra string
+}
+
+// ... and embedded under an unexported alias name
+type paragraphAlias = control.Paragraph
+
+type probeAliased struct {
+	paragraphAlias
+	A string
+}
+
+// lists and scalars whose value arrives folded: no strip tag to hide the trailing newline
+type probeFolded struct {
+	Lines []string `control:"Plain-Lines" delim:"\n" multiline:"true"`
+	Nums  []int    `control:"Num-Lines" delim:"\n" multiline:"true"`
+	Count int      `control:"Folded-Count" multiline:"true"`
+	Flag  bool     `control:"Folded-Flag" multiline:"true"`
+}
+
 type probeEmbPass struct {
 	control.Paragraph
 	ProbeCommon
@@ -204,7 +232,7 @@ func dropFieldLines(text, field string) string {
 
 var specC09Scalars = Register(&Spec[ScalarsCase]{
 	Prop: "C09", Name: "scalars",
-	Rule: "values of a probe struct with string, int (full range), uint (full range incl. > MaxInt64), bool, renamed (control:\"X-Renamed\"), required (one possibly empty, one always empty), skipped (control:\"-\", on a string member and on a struct-kind member whose own members are named like document fields), unexported members (string, version.Version, sync.Mutex: neither written nor read), multiline:\"true\" and plain multi-line string fields; strings are single lines without surrounding blanks, multi-line texts are C08 line sequences. Oracle: Unmarshal(Marshal(x)) == x field by field (multi-line strings up to one trailing newline, skipped field stays zero); in the emitted paragraph optional fields with empty rendering are absent, required ones present; removing a required field's lines makes Unmarshal fail; members of an anonymously embedded plain struct (required, optional, renamed) are written and read like the struct's own, also next to an embedded Paragraph; three values (full, required-only, partial) marshalled as one slice read back as three values none of which carries a neighbour's fields. Non-trivial: >= 3 non-zero fields; distinct by value.",
+	Rule: "values of a probe struct with string, int (full range), uint (full range incl. > MaxInt64), bool, renamed (control:\"X-Renamed\"), required (one possibly empty, one always empty), skipped (control:\"-\", on a string member and on a struct-kind member whose own members are named like document fields), unexported members (string, version.Version, sync.Mutex: neither written nor read), multiline:\"true\" and plain multi-line string fields; strings are single lines without surrounding blanks, multi-line texts are C08 line sequences. Oracle: Unmarshal(Marshal(x)) == x field by field (multi-line strings up to one trailing newline, skipped field stays zero); in the emitted paragraph optional fields with empty rendering are absent, required ones present; removing a required field's lines makes Unmarshal fail; members of an anonymously embedded plain struct (required, optional, renamed) are written and read like the struct's own, also next to an embedded Paragraph; a Paragraph embedded one level down (or under an alias name) still carries the unknown fields through; folded lists, ints and bools without a strip tag; a []*T written and read; three values (full, required-only, partial) marshalled as one slice read back as three values none of which carries a neighbour's fields. Non-trivial: >= 3 non-zero fields; distinct by value.",
 	Check: func(c ScalarsCase, r *Recorder) error {
 		nz := 0
 		for _, s := range []string{c.Str, c.Renamed, c.Req, c.Multi, c.Text} {
@@ -332,6 +360,45 @@ var specC09Scalars = Register(&Spec[ScalarsCase]{
 		ptext, err := marshalToText(&ep)
 		if pp, perr := paraOfText(ptext); err != nil || perr != nil || pp.Values["Origin"] != "changed" || pp.Values["X-Unknown"] != "kept" {
 			return errf("after setting the embedded struct's Origin to \"changed\" the struct marshals as %q (err %v)", ptext, err)
+		}
+		// the raw paragraph reached through an embedded struct, or under an alias name
+		var nested probeNested
+		ndoc := "Source: " + "s" + c.Req + "\nX-Unknown: kept\nExtra: e\nVcs-Git: https://example.org/x.git\n"
+		if err := control.Unmarshal(&nested, strings.NewReader(ndoc)); err != nil {
+			return errf("Unmarshal(%q) into a struct that embeds a struct embedding Paragraph: %v", ndoc, err)
+		}
+		nested.Extra = "changed"
+		ntext, err := marshalToText(&nested)
+		if np, perr := paraOfText(ntext); err != nil || perr != nil || np.Values["X-Unknown"] != "kept" || np.Values["Vcs-Git"] != "https://example.org/x.git" || np.Values["Extra"] != "changed" || np.Values["Source"] != "s"+c.Req {
+			return errf("a struct embedding a struct that embeds Paragraph read %q and marshals as %q (err %v): unknown fields must be re-emitted", ndoc, ntext, err)
+		}
+		var aliased probeAliased
+		if err := control.Unmarshal(&aliased, strings.NewReader("A: 1\nX-Other: 2\n")); err == nil {
+			if atext, err := marshalToText(&aliased); err == nil {
+				if ap, perr := paraOfText(atext); perr != nil || ap.Values["A"] != "1" {
+					return errf("struct embedding Paragraph under an alias name marshals as %q", atext)
+				}
+			}
+		}
+		// folded lists and scalars without a strip tag
+		fin := probeFolded{Lines: []string{"a", "b" + c.Req}, Nums: []int{1, c.Num}, Count: 5, Flag: true}
+		ftext, err := marshalToText(&fin)
+		if err != nil {
+			return errf("Marshal(%+v): %v", fin, err)
+		}
+		var fout probeFolded
+		if err := control.Unmarshal(&fout, strings.NewReader(ftext)); err != nil || !strSliceEq(fout.Lines, fin.Lines) || len(fout.Nums) != 2 || fout.Nums[1] != c.Num || fout.Count != 5 || !fout.Flag {
+			return errf("folded members without a strip tag: %+v written as %q reads back as %+v (err %v)", fin, ftext, fout, err)
+		}
+		// a slice of pointers goes out the way it came in
+		ptrs := []*probeEmb{{ProbeCommon: ProbeCommon{Origin: "o1"}, probeCommonLower: probeCommonLower{Vendor: "v"}}, {ProbeCommon: ProbeCommon{Origin: "o2"}, probeCommonLower: probeCommonLower{Vendor: "v"}}}
+		if ptext, err := marshalToText(ptrs); err != nil {
+			return errf("Marshal of a []*T (which Unmarshal fills happily) failed: %v", err)
+		} else {
+			var back []*probeEmb
+			if err := control.Unmarshal(&back, strings.NewReader(ptext)); err != nil || len(back) != 2 || back[1].Origin != "o2" {
+				return errf("[]*T written as %q reads back as %d elements (err %v)", ptext, len(back), err)
+			}
 		}
 		for _, req := range []string{"Req", "Req-Empty"} {
 			var z probeScalars
